@@ -671,7 +671,7 @@ func detectOneMsg(b []byte, canHaveMoreData bool) (w int, msg Msg) {
 	for rw := 0; i < len(b); i += rw {
 		var r rune
 		r, rw = utf8.DecodeRune(b[i:])
-		if r == utf8.RuneError || r <= rune(keyUS) || r == rune(keyDEL) || r == ' ' {
+		if (r == utf8.RuneError && rw <= 1) || r <= rune(keyUS) || r == rune(keyDEL) || r == ' ' {
 			// Rune errors are handled below; control characters and spaces will
 			// be handled by detectSequence in the next call to detectOneMsg.
 			break
